@@ -1,4 +1,6 @@
 import HawkModel.FmtLemmas
+import HawkModel.FmtOutLemmas
+import HawkModel.Gen.FmtDispatch
 /-!
 # C12 — printf and sprintf format like C
 
@@ -273,6 +275,202 @@ theorem str_fixed_buffer_whole_or_fail (s : Str) (buflen : Nat) (pre : Str) :
     simp [strToStr, this]
   · intro h; simp [strToStr, h]
 
+/-! ## float conversions below the specifier: fmt.c's output buffer and the `snprintf` protocol (libc = a parameter) -/
+
+/-- the `while (1)` loop around `snprintf` in `fmt_outv`, for ANY text `t` libc renders (of a length an `int` can hold), any buffer
+capacity and history: it ends after one call or two, the buffer then holds the whole text `t` (nothing cut), its capacity covers
+the text and is at most `max (2 * capa) |t|`, and it is a heap block exactly when it was one before or a second call was needed -/
+theorem float_out_one_or_two_calls (t : Str) (capa : Nat) (heap : Bool) (calls : Nat) (h : t.length ≤ 2147483647) :
+    ∃ capa' heap' k, outLoop t capa heap calls = .ok capa' heap' (calls + k) t ∧ (k = 1 ∨ k = 2) ∧
+      t.length ≤ capa' ∧ capa ≤ capa' ∧ capa' ≤ max (capa * 2) t.length ∧ (heap' = true ↔ (heap = true ∨ k = 2)) := by
+  by_cases hc : t.length ≤ capa
+  · exact ⟨capa, heap, 1, outLoop_fits t capa heap calls h hc, Or.inl rfl, hc, Nat.le_refl _, by omega, by simp⟩
+  · exact ⟨max (capa * 2) t.length, true, 2, outLoop_grows t capa heap calls h (by omega), Or.inr rfl, by omega, by omega, Nat.le_refl _, by simp⟩
+
+/-- whatever libc's renderer `render` is (any floating type `F`, any specifier text, any value): the text it produces reaches
+hawk's output complete and unchanged, however long it is (up to `INT_MAX` characters, the limit of `snprintf`'s return value) -/
+theorem float_out_delivers_untruncated {F : Type} (render : Str → F → Str) (spec : Str) (v : F)
+    (hlen : (render spec v).length ≤ 2147483647) (hnul : '\x00' ∉ render spec v) :
+    deliver (render spec v) = some (render spec v) := by
+  unfold deliver
+  obtain ⟨capa', heap', k, hk, -⟩ := float_out_one_or_two_calls (render spec v) 63 false 0 hlen
+  rw [hk]
+  simp [cstrOf_noNul _ hnul]
+
+/-- a text longer than `INT_MAX` makes `snprintf` return a negative value: the conversion fails (`goto oops`), nothing is put out -/
+theorem float_out_int_overflow_fails (t : Str) (h : t.length > 2147483647) : deliver t = none := by
+  unfold deliver
+  rw [outLoop_overflow t 63 false 0 h]
+
+/-- the text handed to libc denotes the conversion the user wrote. With `s = cspec fl w p c` — ISO C's reading of the user's
+specification, `*` arguments taken in order, a negative `*` width read as the `-` flag and its absolute value, a negative `*` precision
+as omitted — the text is `denoteText s w p`: the flags of `s` as a set, each once, in the order ` # + - 0` (`0` only without `-`, where C
+ignores it anyway; a `*` width of 0 adds a `0` that has no effect without a width), the width of `s`, a period and the precision of `s`
+when `s` has one, `L`, the conversion character. Nothing else of the user's text survives and nothing is added. -/
+theorem float_spec_denotes (cfg : Cfg) (fl : Str) (w : WSpec) (p : PSpec) (wf : SpecWF fl w p) (c : Char)
+    (hc : c = 'e' ∨ c = 'E' ∨ c = 'f' ∨ c = 'g' ∨ c = 'G') (a : Arg) :
+    format cfg ('%' :: specText fl w p c) (w.args ++ p.args ++ [a]) = .ok [.libc (denoteText (cspec fl w p c) w p) a] := by
+  rw [← libcSpecOf_denotes]
+  exact float_spec_passthrough cfg fl w p wf c hc a
+
+/-- "compose back the format specifier" into `fb.fmt` with the room checks of the code (`composeInto`: the two numbers are cut to
+the cells that are left, the single characters are stored unchecked): whenever the recomposed specifier fits the buffer, it is
+written whole, i.e. it is `recompose` — the text of `float_spec_passthrough`. (It fits when width and precision are written back no
+longer than they were read; a value that wrapped around in `int n` is not — see patches/c12-fmt-width-precision-overflow.diff.) -/
+theorem float_spec_written_whole_if_room (capa : Nat) (st : CState) (conv : Char) (h : (recompose st conv).length ≤ capa) :
+    composeInto capa st conv = recompose st conv := composeInto_eq capa st conv h
+
+/-- … and it does fit, for every specifier run.c builds from a well-formed specification (any flags, repeated or not, literal or `*`
+width and precision of any size, both formatters: `chsz` = 1 or 2 bytes per format character): the specifier handed to libc is never
+longer than the one hawk built (each flag is written back once, numbers without leading zeros, `z` becomes `L`), so the recomposition
+is written whole into `fb.fmt` and the final NUL stays inside the buffer. This is the invariant an `int n` that wraps around breaks. -/
+theorem float_spec_fits_buffer (tmpLen : Nat) (fl : Str) (w : WSpec) (p : PSpec) (wf : SpecWF fl w p) (c : Char) (chsz : Nat) (hch : 1 ≤ chsz) :
+    (libcSpecOf fl w p c).length ≤ fmtCapa (chsz * ('%' :: fl ++ w.fbuText tmpLen ++ p.fbuText tmpLen ++ ['z', c]).length) ∧
+    composeInto (fmtCapa (chsz * ('%' :: fl ++ w.fbuText tmpLen ++ p.fbuText tmpLen ++ ['z', c]).length)) (libcState fl w p) c =
+      libcSpecOf fl w p c := by
+  have hl := libcSpecOf_length_le tmpLen fl w p wf c
+  have hcap : ∀ n, n ≤ fmtCapa (chsz * n) := by
+    intro n
+    have : n ≤ chsz * n := Nat.le_mul_of_pos_left n hch
+    unfold fmtCapa; split <;> omega
+  have hfit := Nat.le_trans hl (hcap _)
+  refine ⟨hfit, ?_⟩
+  rw [← recompose_libcState fl w p wf c] at hfit ⊢
+  exact composeInto_eq _ _ _ hfit
+
+/-- the float branch of fmt_outv end to end, libc being any `render`: for a specifier fmt.c accepts (`fmtcScan`) and whose
+recomposition fits `fb.fmt`, what is put out is exactly libc's rendering of the recomposed specifier — hawk adds nothing around it
+and cuts nothing off, so sign, padding and alignment are those of the C library for that specifier -/
+theorem float_out_is_libc {F : Type} (render : Str → F → Str) (chsz : Nat) (body : Str) (v : F) (st : CState) (conv : Char)
+    (hs : fmtcScan body {} = some (st, conv))
+    (hroom : (recompose st conv).length ≤ fmtCapa (chsz * (body.length + 1)))
+    (hlen : (render (recompose st conv) v).length ≤ 2147483647) (hnul : '\x00' ∉ render (recompose st conv) v) :
+    fmtcFloatOut render chsz ('%' :: body) v = some (some (render (recompose st conv) v)) := by
+  unfold fmtcFloatOut
+  simp only [hs, Option.map_some, List.length_cons]
+  rw [composeInto_eq _ _ _ hroom, float_out_delivers_untruncated render _ v hlen hnul]
+
+/-! ## the scratch buffers of the two formatters of one runtime (`rtx->format.tmp`, `rtx->formatmbs.tmp`) -/
+
+/-- an integer conversion as the formatter meets it -/
+def OpOk (o : IntOp) : Prop :=
+  (o.c = 'd' ∨ o.c = 'i' ∨ o.c = 'o' ∨ o.c = 'u' ∨ o.c = 'x' ∨ o.c = 'X') ∧ (o.precGiven = false → o.prec = -1) ∧ -1 ≤ o.prec ∧
+  (-9223372036854775808 ≤ o.l ∧ o.l < 9223372036854775808)
+
+/-- for every sequence of integer conversions by the wide and the byte-string formatter of one runtime, from any buffer lengths:
+every call into fmt.c passes a size that the formatter's OWN scratch buffer has at that moment (the callee writes up to that many
+cells) — whatever the field widths and precisions, also across the growth steps -/
+theorem scratch_calls_within_buffer (s : Scratch) (ops : List IntOp) :
+    ∀ x ∈ seqRun s ops, ∀ p ∈ x.2, p.1 ≤ p.2 := by
+  induction ops generalizing s with
+  | nil => intro x hx; simp [seqRun] at hx
+  | cons o r ih =>
+    intro x hx
+    simp only [seqRun, List.mem_cons] at hx
+    rcases hx with rfl | hx
+    · intro p hp
+      exact emitIntTmpOf_within _ _ _ p (by simpa [seqStep, emitIntTmp] using hp)
+    · exact ih _ x hx
+
+/-- a conversion by one formatter leaves the other formatter's buffer as it was and never shrinks its own -/
+theorem scratch_other_formatter_untouched (s : Scratch) (o : IntOp) :
+    (seqStep s o.mbs o.flags o.width o.precGiven o.prec o.c o.l).1.get (!o.mbs) = s.get (!o.mbs) ∧
+    s.get o.mbs ≤ (seqStep s o.mbs o.flags o.width o.precGiven o.prec o.c o.l).1.get o.mbs := by
+  have hm := emitIntTmpOf_mono
+  cases hb : o.mbs <;> simp [seqStep, Scratch.get, Scratch.set, emitIntTmp, hm]
+
+/-- the texts of such a sequence do not depend on what came before (buffers enlarged by either formatter, in any order): each is
+what C gives for that specification alone -/
+theorem scratch_history_independent (s : Scratch) (ops : List IntOp) (h : ∀ o ∈ ops, OpOk o) :
+    (seqRun s ops).map (·.1) = ops.map fun o => CSpec.render ⟨o.flags, o.width, precOpt o.prec, o.c⟩ o.l := by
+  induction ops generalizing s with
+  | nil => simp [seqRun]
+  | cons o r ih =>
+    obtain ⟨hc, hpg, hp1, hl⟩ := h o (by simp)
+    simp only [seqRun, List.map_cons, seqStep]
+    rw [emitInt_eq_render _ _ _ _ _ _ _ hc hpg hp1 hl, ih _ (fun o' ho' => h o' (by simp [ho']))]
+
+/-! ## tie: the conversion dispatch regenerated from lib/run.c and lib/fmt.c (extract/fmt_dispatch.py → Gen/FmtDispatch.lean) -/
+
+/-- the branch `Fmt.dispatch` takes for a conversion character (its `if` chain, in its order) -/
+def handlerOf (c : Char) : String :=
+  if isIntConv c then "int" else if isFltConv c then "flt" else if c == 'c' then "chr"
+  else if c == 's' ∨ isExtConv c then "str" else "other"
+
+/-- every row (character, handler) of the dispatch chains of hawk_rtx_format and hawk_rtx_formatmbs, as regenerated from the
+source, is the branch the model takes, and a character in neither chain goes to the model's copy-through branch: the two
+formatters and the model dispatch alike -/
+theorem dispatch_table_tie :
+    (∀ r ∈ Gen.dispatchWide, handlerOf r.1 = r.2) ∧ (∀ r ∈ Gen.dispatchByte, handlerOf r.1 = r.2) ∧
+    (∀ c, c ∉ Gen.dispatchWide.map (·.1) → handlerOf c = "other") ∧ (∀ c, c ∉ Gen.dispatchByte.map (·.1) → handlerOf c = "other") := by
+  refine ⟨by decide, by decide, ?_, ?_⟩ <;>
+  · intro c hc
+    simp [Gen.dispatchWide, Gen.dispatchByte] at hc
+    simp [handlerOf, isIntConv, isFltConv, isExtConv, hc]
+
+/-- what a row (label, base, fmt_uint, UPPERCASE, ZEROLEAD under `#`, prefix under `#` and a nonzero value, sign flags) of the
+regenerated `switch (fmt[i])` of the integer branch says about the conversion character `c` -/
+def SwitchRowOk (r : Option Char × Nat × Bool × Bool × Bool × Option String × Bool) (c : Char) : Prop :=
+  ∀ (flags : Flags) (l : Int), convOf flags c l =
+    (r.2.1, r.2.2.2.1, (r.2.2.2.2.1 && flags.hash), (r.2.2.2.2.2.2 && flags.plus), (r.2.2.2.2.2.2 && flags.space), r.2.2.1,
+     if l ≠ 0 ∧ flags.hash = true then r.2.2.2.2.2.1.map String.toList else none)
+
+/-- the model's `convOf` is the regenerated `switch (fmt[i])` of both formatters, row by row; the `default` row covers `d` and `i` -/
+theorem int_switch_table_tie :
+    (∀ r ∈ Gen.intSwitchWide, match r.1 with | some c => SwitchRowOk r c | none => SwitchRowOk r 'd' ∧ SwitchRowOk r 'i') ∧
+    (∀ r ∈ Gen.intSwitchByte, match r.1 with | some c => SwitchRowOk r c | none => SwitchRowOk r 'd' ∧ SwitchRowOk r 'i') := by
+  constructor <;>
+  · intro r hr
+    simp only [Gen.intSwitchWide, Gen.intSwitchByte, List.mem_cons, List.not_mem_nil, or_false] at hr
+    rcases hr with rfl | rfl | rfl | rfl | rfl | rfl | rfl <;>
+      simp only [SwitchRowOk] <;> (try constructor) <;> intro flags l <;>
+      obtain ⟨sp, hs, ze, pl, mi⟩ := flags <;>
+      by_cases hl : l = 0 <;> cases hs <;> cases pl <;> cases sp <;> simp [convOf, hl]
+
+/-- the bit of fmt.c's `flagc` a FLAGC_ name stands for, in the model's state -/
+def flagBit (st : CState) (n : String) : Bool :=
+  if n == "SPACE" then st.space else if n == "SHARP" then st.sharp else if n == "SIGN" then st.sign
+  else if n == "LEFTADJ" then st.leftadj else if n == "ZEROPAD" then st.zeropad else false
+
+/-- "compose back the format specifier" writes the flag characters in the order regenerated from fmt.c (`Gen.recomposeFlags`), each
+when its `flagc` bit is set, then width, period, precision, `L` and the conversion character: `recompose` is that code -/
+theorem recompose_flag_order_tie (st : CState) (conv : Char) :
+    recompose st conv = ['%'] ++ (Gen.recomposeFlags.filterMap fun r => if flagBit st r.1 then some r.2 else none)
+      ++ (if st.width then decimal st.w else []) ++ (if st.dot then ['.'] else []) ++ (if st.precision then decimal st.p else [])
+      ++ ['L', conv] := by
+  obtain ⟨dot, sharp, space, sign, leftadj, zeropad, width, precision, lenmod, w, p⟩ := st
+  cases sharp <;> cases space <;> cases sign <;> cases leftadj <;> cases zeropad <;>
+    simp [recompose, Gen.recomposeFlags, flagBit]
+
+/-- over the regenerated table: every character either formatter sends to its integer branch (other than hawk's binary extension
+`b B`) formats any 64-bit value exactly as ISO C prescribes, for all flags, widths and precisions -/
+theorem table_int_rows_like_C (cfg : Cfg) :
+    ∀ r ∈ (if cfg.mbs then Gen.dispatchByte else Gen.dispatchWide), r.2 = "int" → r.1 ≠ 'b' → r.1 ≠ 'B' →
+    ∀ (fl : Str) (w : WSpec) (p : PSpec), SpecWF fl w p → ∀ (a : Arg), (-9223372036854775808 ≤ a.toInt ∧ a.toInt < 9223372036854775808) →
+      format cfg ('%' :: specText fl w p r.1) (w.args ++ p.args ++ [a]) = .ok [.text (CSpec.render (cspec fl w p r.1) a.toInt)] := by
+  intro r hr hk hb hB fl w p wf a ha
+  have hc : r.1 = 'd' ∨ r.1 = 'i' ∨ r.1 = 'o' ∨ r.1 = 'u' ∨ r.1 = 'x' ∨ r.1 = 'X' := by
+    cases hm : cfg.mbs <;> simp only [hm, if_true, if_false, Bool.false_eq_true] at hr <;>
+    simp only [Gen.dispatchWide, Gen.dispatchByte, List.mem_cons, List.not_mem_nil, or_false] at hr <;>
+    rcases hr with rfl | rfl | rfl | rfl | rfl | rfl | rfl | rfl | rfl | rfl | rfl | rfl | rfl | rfl | rfl | rfl | rfl | rfl | rfl <;>
+    simp_all
+  exact format_int_eq_C cfg fl w p wf r.1 hc a ha
+
+/-- over the regenerated tables: every character either formatter sends to its float branch is a case label of the branch of
+fmt_outv that calls `snprintf`, and the specifier handed down is `libcSpecOf` (see `float_spec_passthrough`) -/
+theorem table_flt_rows_to_libc (cfg : Cfg) :
+    ∀ r ∈ (if cfg.mbs then Gen.dispatchByte else Gen.dispatchWide), r.2 = "flt" → r.1 ∈ Gen.fmtcFloatCases ∧
+    ∀ (fl : Str) (w : WSpec) (p : PSpec), SpecWF fl w p → ∀ (a : Arg),
+      format cfg ('%' :: specText fl w p r.1) (w.args ++ p.args ++ [a]) = .ok [.libc (libcSpecOf fl w p r.1) a] := by
+  intro r hr hk
+  have hc : r.1 = 'e' ∨ r.1 = 'E' ∨ r.1 = 'f' ∨ r.1 = 'g' ∨ r.1 = 'G' := by
+    cases hm : cfg.mbs <;> simp only [hm, if_true, if_false, Bool.false_eq_true] at hr <;>
+    simp only [Gen.dispatchWide, Gen.dispatchByte, List.mem_cons, List.not_mem_nil, or_false] at hr <;>
+    rcases hr with rfl | rfl | rfl | rfl | rfl | rfl | rfl | rfl | rfl | rfl | rfl | rfl | rfl | rfl | rfl | rfl | rfl | rfl | rfl <;>
+    simp_all
+  refine ⟨?_, fun fl w p wf a => float_spec_passthrough cfg fl w p wf r.1 hc a⟩
+  rcases hc with h | h | h | h | h <;> rw [h] <;> decide
+
 /-! ## non-vacuity: the hypotheses are satisfiable by non-trivial specifications, and the reference says what C says -/
 
 example : SpecWF ['#', '0'] (.lit ['8']) .none := ⟨by decide, by simp [WSpec.wf], trivial⟩
@@ -322,5 +520,23 @@ example : valFltToStr (some 16777216) [] .cplcpy 8 [] = .einval (some 9) ∧ val
   constructor
   · rw [(val_flt_to_str_fixed_buffer (some 16777216) [] 8 []).1]; decide
   · decide
+
+/-- the wide `%300000d` followed by the byte-string `%200000d` of one runtime: both operations satisfy the hypotheses -/
+example : OpOk ⟨false, {}, 300000, false, -1, 'd', 42⟩ ∧ OpOk ⟨true, {}, 200000, false, -1, 'd', 42⟩ := by
+  unfold OpOk; decide
+/-- … the wide one enlarges `format.tmp` only; the byte-string one then grows its own buffer from 4096 cells -/
+example : tmpT1 4096 300000 = 300000 ∧ tmpT1 4096 200000 = 200000 ∧ tmpT1 4096 4097 = 12288 ∧ tmpT1 12288 12289 = 20480 := by decide
+/-- a renderer whose text does not fit the 63 cells of `fb.out.sbuf` (hypotheses of `float_out_delivers_untruncated`) -/
+example : deliver (List.replicate 64 '7') = some (List.replicate 64 '7') :=
+  float_out_delivers_untruncated (fun _ (_ : Unit) => List.replicate 64 '7') [] () (by decide) (by decide)
+example : outLoop (List.replicate 64 '7') 63 false 0 = .ok 126 true 2 (List.replicate 64 '7') :=
+  outLoop_grows _ 63 false 0 (by decide) (by decide)
+/-- `%+12.3Le` (13 characters) fits the 31 cells of `fb.fmt.sbuf`: the hypothesis of `float_spec_written_whole_if_room` -/
+example : (recompose { sign := true, width := true, w := 12, dot := true, precision := true, p := 3 } 'e').length ≤ fmtCapa 16 := by
+  simp [recompose, decimal, revDigits, fmtCapa]
+
+/-- `%0*.*e` with the arguments -12 and 3: C reads flags {0, -}, width 12, precision 3 — the text for libc says the same -/
+example : denoteText (cspec ['0'] (.star (-12)) (.star 3) 'e') (.star (-12)) (.star 3) = "%-12.3Le".toList := by
+  rw [← libcSpecOf_denotes]; simp [libcSpecOf, decimal, revDigits]; decide
 
 end Hawk.Fmt.C12
